@@ -153,6 +153,14 @@ def run(ctx):
     ]
     if not ctx.violations and not ctx.replay:
         selftest(ctx, events)
+    # extension: the event stream delivered to subscribers (spec/events, harness/c04events)
+    ep = os.path.join(os.path.dirname(os.path.abspath(__file__)), "c04_events.py")
+    if os.path.exists(ep) and not ctx.replay:
+        import importlib.util
+        sp = importlib.util.spec_from_file_location("check_c04_events", ep)
+        m = importlib.util.module_from_spec(sp)
+        sp.loader.exec_module(m)
+        m.run_ext(ctx)
 
 
 def steps_stage(ctx, res, selftests=True):
